@@ -20,6 +20,9 @@ THEOREMS = [
     "Typedpy.C20.C20_statement_false", "Typedpy.C20.tables_ok", "Typedpy.C20.pinned_tables_ok", "Typedpy.C20.tables_nonvacuous",
     "Typedpy.C20.linearizable_example",
     "Typedpy.C20.private_copies_linearizable",
+    "Typedpy.C20.private_copies_equal_original_sequential",
+    "Typedpy.C20.no_racy_site_equals_sequential",
+    "Typedpy.C20.flat_oneOf_notField_linearizable", "Typedpy.C20.flat_oneOf_example",
     "Typedpy.C20.safe_table_linearizable",
     "Typedpy.C20.no_racy_site_linearizable",
     "Typedpy.C20.current_tree_linearizable",
